@@ -261,4 +261,24 @@ CHECKS = {
         note="Acceptance of RE_ENCODING / RE_META (spelling of declarations "
              "and meta tags) is value-level and not decided; rendering "
              "equality bytes vs str follows from decoding only."),
+    "C15": dict(
+        technique="def-use of configuration attributes over the call graph "
+                  "of the compile path (MRO-resolved) against the attributes "
+                  "hashed by digest(); path rules on ModuleLoader.build "
+                  "(temp/close/rename protocol, lock in try/finally); "
+                  "who-may-write census",
+        text="Decides that every option read while compiling (22 functions "
+             "reachable from cook, resolved on the MRO of PageTemplate and "
+             "PageTemplateFile) is fed into the cache key or exempt for a "
+             "stated reason, together with body, class, file name, builtin "
+             "names and package versions; that a module is stored by "
+             "creating a temporary file in the cache directory with a suffix "
+             "the lookup cannot resolve, writing, closing and then renaming "
+             "it exactly once, that a failed write removes the temporary "
+             "file, that the lock is held in try/finally, that no other code "
+             "in the package writes files; that lookup is by exact name and "
+             "modules are published in sys.modules only after executing.",
+        note="Trusted: atomic rename within one directory, py_compile. "
+             "Equality of rendering with/without cache follows from key "
+             "coverage and is not computed."),
 }
